@@ -91,6 +91,25 @@ func buildMsg(kind string, v int) any {
 				Object: &kmip.SymmetricKey{KeyBlock: kmip.KeyBlock{KeyFormatType: kmip.KeyFormatTypeRaw,
 					KeyValue:               &kmip.KeyValue{Plain: &kmip.PlainKeyValue{KeyMaterial: kmip.KeyMaterial{Bytes: &[]byte{1, 2, 3, 4, 5, 6, 7, 8}}, Attribute: attrs}},
 					CryptographicAlgorithm: kmip.CryptographicAlgorithmAES, CryptographicLength: 64}}}}}}
+	case "RespGetSecret":
+		// the same payload structure as RespGet carrying another concrete object type: plans are per structure, the value varies
+		return &kmip.ResponseMessage{Header: sh, BatchItem: []kmip.ResponseBatchItem{{Operation: kmip.OperationGet,
+			ResponsePayload: &payloads.GetResponsePayload{ObjectType: kmip.ObjectTypeSecretData, UniqueIdentifier: "id",
+				Object: &kmip.SecretData{SecretDataType: kmip.SecretDataTypePassword, KeyBlock: kmip.KeyBlock{KeyFormatType: kmip.KeyFormatTypeOpaque,
+					KeyValue: &kmip.KeyValue{Plain: &kmip.PlainKeyValue{KeyMaterial: kmip.KeyMaterial{Bytes: &[]byte{9, 8, 7}}}}}}}}}}
+	case "RespGetOpaque":
+		return &kmip.ResponseMessage{Header: sh, BatchItem: []kmip.ResponseBatchItem{{Operation: kmip.OperationGet,
+			ResponsePayload: &payloads.GetResponsePayload{ObjectType: kmip.ObjectTypeOpaqueObject, UniqueIdentifier: "id",
+				Object: &kmip.OpaqueObject{OpaqueDataType: 1, OpaqueDataValue: []byte{1, 2, 3, 4}}}}}}
+	case "ReqRegisterKey":
+		return &kmip.RequestMessage{Header: rh, BatchItem: []kmip.RequestBatchItem{{Operation: kmip.OperationRegister,
+			RequestPayload: &payloads.RegisterRequestPayload{ObjectType: kmip.ObjectTypeSymmetricKey, TemplateAttribute: kmip.TemplateAttribute{Attribute: attrs},
+				Object: &kmip.SymmetricKey{KeyBlock: kmip.KeyBlock{KeyFormatType: kmip.KeyFormatTypeRaw, KeyValue: &kmip.KeyValue{Plain: &kmip.PlainKeyValue{KeyMaterial: kmip.KeyMaterial{Bytes: &[]byte{1, 2, 3, 4, 5, 6, 7, 8}}}},
+					CryptographicAlgorithm: kmip.CryptographicAlgorithmAES, CryptographicLength: 64}}}}}}
+	case "ReqRegisterCert":
+		return &kmip.RequestMessage{Header: rh, BatchItem: []kmip.RequestBatchItem{{Operation: kmip.OperationRegister,
+			RequestPayload: &payloads.RegisterRequestPayload{ObjectType: kmip.ObjectTypeCertificate, TemplateAttribute: kmip.TemplateAttribute{Attribute: attrs},
+				Object: &kmip.Certificate{CertificateType: kmip.CertificateTypeX_509, CertificateValue: []byte{0x30, 0x03, 0x02, 0x01, 0x01}}}}}}
 	case "RespQuery":
 		return &kmip.ResponseMessage{Header: sh, BatchItem: []kmip.ResponseBatchItem{{Operation: kmip.OperationQuery,
 			ResponsePayload: &payloads.QueryResponsePayload{Operations: []kmip.Operation{kmip.OperationGet}, VendorIdentification: "v",
